@@ -13,6 +13,7 @@ Judge(L) ==
      ELSE IF L.outcome # "OK" THEN "outcome_" \o L.outcome
      ELSE IF L.nf_rows # nf THEN "active_quark_rows_differ"
      ELSE IF L.beta0 # Beta0(nf) THEN "beta0_of_scale_variation_differs"
+     ELSE IF L.beta0_total # Beta0(nf) THEN "beta0_of_scale_variation_differs_between_contributions"
      ELSE IF t.FNS = "ZM-VFNS" /\ nf # NfClass(zt, L.i, L.cls) THEN "spec_inconsistent"
      ELSE "ok"
 VARIABLE l
